@@ -1079,3 +1079,36 @@ Example C15_holder_run_never_oom_nonvacuous :
   (let '(rs, _, _) := holder_run all_ok true [CNewLabel; CNewLabel; CEmbedLabel 0; CBind 0; CNewReloc] holder_empty 0%nat in rs) = [Ok; Ok; Ok; Ok; Ok] /\
   Z.of_nat (length (ho_labels holder_empty)) + 5 + 2 < max_items.
 Proof. split; [vm_compute; reflexivity|cbn; unfold max_items; lia]. Qed.
+
+(* ------------------------------------------------------------------------------------------------ round 7: sequence lift *)
+From Verif Require OomTxn.RunLevelNoOom.
+
+(* CodeHolder with sections, address table and call imm64, WHOLE scripts: when no request fails and the label, relocation and the
+   two section vectors stay below the 32-bit size limit for the whole script (length + number of operations), no operation
+   reports kOutOfMemory - C15_holder2_all_ok_never_oom lifted from one step to every script. *)
+Theorem C15_holder2_run_all_ok_never_oom :
+  forall (ops : list cop2) (h : holder2) (k : nat) (rs : list result) (h' : holder2) (k' : nat),
+    Z.of_nat (length (ho_labels (h2_base h))) + Z.of_nat (length ops) + 2 < max_items ->
+    Z.of_nat (length (ho_relocs (h2_base h))) + Z.of_nat (length ops) + 2 < max_items ->
+    Z.of_nat (length (ss_orders (h2_sects h))) + Z.of_nat (length ops) + 2 < max_items ->
+    Z.of_nat (length (ss_by_order (h2_sects h))) + Z.of_nat (length ops) + 2 < max_items ->
+    holder2_run all_ok true ops h k = (rs, h', k') -> ~ In Oom rs.
+Proof. exact RunLevelNoOom.holder2_run_all_ok_never_oom. Qed.
+Print Assumptions C15_holder2_run_all_ok_never_oom.
+
+(* every step moves each of the four vector lengths by at most one (the frame fact behind the lift), any oracle *)
+Theorem C15_holder2_step_growth :
+  forall (ok : nat -> bool) (op : cop2) (h : holder2) (k : nat) (r : result) (h' : holder2) (k' : nat),
+    holder2_step ok true op h k = (r, h', k') ->
+    (length (ho_labels (h2_base h')) <= S (length (ho_labels (h2_base h))))%nat /\
+    (length (ho_relocs (h2_base h')) <= S (length (ho_relocs (h2_base h))))%nat /\
+    (length (ss_orders (h2_sects h')) <= S (length (ss_orders (h2_sects h))))%nat /\
+    (length (ss_by_order (h2_sects h')) <= S (length (ss_by_order (h2_sects h))))%nat.
+Proof. exact RunLevelNoOom.holder2_step_growth. Qed.
+Print Assumptions C15_holder2_step_growth.
+
+Example C15_holder2_run_never_oom_nonvacuous :
+  (let '(rs, _, _) := holder2_run all_ok true [CNewSection 5; CCallAbs 4096; CBase CNewLabel; CAddAddress 8192] holder2_init 0%nat in rs) = [Ok; Ok; Ok; Ok] /\
+  (let '(rs, _, _) := holder2_run (fun k => negb (k =? 1)%nat) true [CNewSection 5; CCallAbs 4096] holder2_init 0%nat in rs) = [Ok; Oom] /\
+  Z.of_nat (length (ss_orders (h2_sects holder2_init))) + 4 + 2 < max_items.
+Proof. split; [vm_compute; reflexivity|]. split; [vm_compute; reflexivity|]. cbn. unfold max_items. lia. Qed.
